@@ -9,7 +9,7 @@ RULES = {
     "R05.1": "typestate of Execute: status := Executed is written only on paths that decided "
              "current_status(stored, env.block) == Passed (flex: and Config::authorize(querier, info.sender) = Ok) before the "
              "write; the proposal's messages are returned only on such a path, i.e. after that write; authorize's body is "
-             "None => Ok, Member => is_member(sender) present, Only(a) => a == sender",
+             "None => Ok, Member => is_member(sender) present in the group's live state, Only(a) => a == sender",
     "R05.2": "dispatch exactly as proposed: the returned messages are add_messages(stored.msgs) (flex: preceded only by the "
              "deposit refund), as plain messages (no reply handler), so a failing dispatch reverts the call",
     "R05.3": "who may change status: Vote/Propose via current_status; Execute -> Executed (R05.1); Close -> Rejected only when "
@@ -306,8 +306,12 @@ def flex_authorized(p, CFG, before=None):
     inner_t = ("vfield", ex, "Some", "0")
     inner = [c[1] for c in p.conds if c[0] == inner_t and (before is None or c[3] <= before)]
     if inner == ["Member"]:
-        good = any(c[1] == "Some" and (before is None or c[3] <= before) and any(x[0] == "call" and x[1].endswith("::query") for x in walk(c[0]))
-                   and any(x == SENDER for x in walk(c[0])) for c in p.conds)
+        # ... in the group as it is now: a raw read of the group's member table, or its Member query without a height (a height
+        # would answer from the snapshot taken at the start of that block - someone removed since then is no longer a member)
+        from .C06 import group_reads
+        from ..engine import NONE
+        good = any(c[1] == "Some" and (before is None or c[3] <= before) and any(x == SENDER for x in walk(c[0]))
+                   and any(r[0] == "raw-live" or (r[0] == "smart" and r[2] == NONE) for r in group_reads(c[0])) for c in p.conds)
         return good, "Member"
     if inner == ["Only"]:
         a = ("vfield", inner_t, "Only", "0")
